@@ -85,6 +85,33 @@ def renormalized(chk):
     I = chk.summary(BACKTEST, "RenormalizedFixedIncomeResult", "__init__", host="RenormalizedFixedIncomeResult")
     ok = any(True for e in I.raises if any((not p) and sym.contains(a, lambda n: (n[0] == "fld" and n[2] == "_fixed_income") or (n[0] == "attr" and n[2] == "fixed_income")) for a, p in e.guard))
     chk.ob("C17.R6", ok, BACKTEST, "RenormalizedFixedIncomeResult.__init__", "non-fi-rejected", "backtests that are not on a fixed-income strategy are rejected", where=I.fn.where)
+    # each backtest is renormalised with ITS OWN normaliser: when a dict is given, the one stored under the backtest's name
+    nv = ("param", "normalizing_value")
+    is_dict = canon(("call", "isinstance", (nv, ("func", "dict")), ()))
+    calls = []
+    vals = [getattr(e, "value", None) for e in I.events] + [a for e in I.events for a in (e.args or ())] + [v_ for e in I.events for v_ in (e.kwargs or {}).values()]
+    for v in vals:
+        if isinstance(v, tuple):
+            for n in sym.walk(v):
+                if n[0] in ("fcall",) and n[2] == "_price" and len(n[3]) == 2:
+                    calls.append((n[3][0], n[3][1]))
+                elif n[0] == "resof" and len(n) > 3 and n[1] == "_price" and len(n[3]) == 2:
+                    calls.append((n[3][0], n[3][1]))
+    for e in I.events:
+        if e.kind == "call" and e.name == "_price" and len(e.args or ()) == 2:
+            calls.append((e.args[0], e.args[1]))
+    ok = bool(calls)
+    found = "no call of _price found"
+    for s_arg, v_arg in calls:
+        owner = s_arg[1] if (s_arg[0] in ("attr", "fld") and s_arg[2] == "strategy") else None
+        vd = canon(sym.restrict(v_arg, sym.sat(((is_dict, True),))))
+        by_name = (owner is not None and vd[0] == "sub" and isinstance(vd[2], tuple) and vd[2][0] in ("attr", "fld") and vd[2][2] == "name" and canon(vd[2][1]) == canon(owner)
+                   and sym.contains(vd[1], lambda n: n == nv or (n[0] == "fld" and n[2] in ("_normalizing_value", "normalizing_value"))))
+        if not by_name:
+            ok = False
+            found = short(vd, 160)
+    chk.ob("C17.R6", ok, BACKTEST, "RenormalizedFixedIncomeResult.__init__", "normaliser-by-name", "each backtest's index is renormalised with its own normaliser: the entry of the "
+           "dict stored under that backtest's name (not the entry at its position)", where=I.fn.where, expected="normalizing_value[x.name] for backtest x", found=found)
     core_rules.security_setup_rules(chk, "C17")
     # weights reported for a fixed-income backtest are fractions of the ROOT's notional
     from .algo_equiv import check_equiv as _ce
